@@ -346,17 +346,21 @@ def autotyped (name : Str) (kind : Kind) (cells : List Cell) : LComp :=
     else ⟨name, false, if cells.all cellIntLike then 105 else 102, cells.map coerce⟩
 
 /-- `c.filled(fill_value=np.nan)`, and `-1` when NaN cannot be assigned (integer dtype); on a text
-column numpy stores the *text* `'nan'`. -/
-def maskedFill (kind : Kind) : Option Cell → Cell
+column numpy stores the *text* `'nan'`, truncated to the column's item size `w`. -/
+def maskedFill (kind : Kind) (w : Nat) : Option Cell → Cell
   | some c => c
   | none =>
     match kind with
     | .float => .nan
     | .int _ => .num (-1)
     | .uint _ => .num 0      -- F5 repair: -1 cannot be stored in an unsigned column
-    | .str => .str [110, 97, 110]
+    | .str => .str ([110, 97, 110].take w)
 
-def filled (c : RCol) : List Cell := c.cells.map (maskedFill c.kind)
+/-- item size of a text column: the longest entry -/
+def textWidth (cells : List (Option Cell)) : Nat :=
+  cells.foldl (fun w c => match c with | some (.str s) => max w s.length | _ => w) 0
+
+def filled (c : RCol) : List Cell := c.cells.map (maskedFill c.kind (textWidth c.cells))
 
 /-- `astropy_tabular_data`: one `Data`, columns in table order. -/
 def tabularLoad (cols : List RCol) : List LData :=
